@@ -98,6 +98,16 @@ def loader(run, p):
                     isinstance(x.args[1], ast.Constant) and isinstance(x.args[1].value, str) and x.args[1].value.startswith('_') and not x.args[1].value.startswith('__'):
                 reads.add(x.args[1].value)
     run.ob('C19-LOADER', 'tag-attribute', len(sets) == 1 and reads == sets, 'tag() sets %s; loader and pytest filter read %s' % (sorted(sets), sorted(reads)), fn=t)
+    # the decorator marks the object it is given and nothing else (functions found through a class are shared with
+    # every other subclass of the base that defines them)
+    others = [x for x in ast.walk(t.node) if isinstance(x, ast.Attribute) and isinstance(x.ctx, ast.Store) and
+              not (isinstance(x.value, ast.Name) and x.value.id == t.posparams[0])]
+    others += [x for x in ast.walk(t.node) if isinstance(x, ast.Call) and getattr(x.func, 'id', '') == 'setattr' and
+               not (x.args and isinstance(x.args[0], ast.Name) and x.args[0].id == t.posparams[0])]
+    run.ob('C19-LOADER', 'tag-marks-its-argument-only', not others,
+           'tag() stores the tag on %s' % ('its argument only' if not others else
+                                          'other objects too (%s): a function reached through a class is shared by every class that inherits it' % norm(others[0])[:40]),
+           fn=t, node=others[0] if others else None)
     n = 0
     for name in ('loadTestsFromTestCase', 'loadTestsFromModule', 'loadTestsFromName', 'loadTestsFromNames'):
         f = L.methods.get(name)
@@ -124,7 +134,7 @@ def loader(run, p):
     src = ast.unparse(pt.node)
     ok = "getattr(cls, '_tagged', None)" in src and "getattr(f.obj, '_tagged', None)" in src and 'items.remove(f)' in src
     run.ob('C19-LOADER', 'pytest-filter', ok, 'pytest filter reads the tag from the test\'s class and from the function, and removes the item otherwise', fn=pt)
-    run.floor('C19-LOADER', n + 3, 7)
+    run.floor('C19-LOADER', n + 4, 8)
 
 
 def _truth(e, env):
@@ -136,8 +146,13 @@ def _truth(e, env):
     t = norm(e)
     if t in env:
         return env[t]
-    if isinstance(e, ast.Call) and getattr(e.func, 'id', '') == 'isinstance' and 'TestSuite' in norm(e.args[1]):
-        return env['is_suite']
+    if isinstance(e, ast.Call) and getattr(e.func, 'id', '') == 'isinstance' and len(e.args) == 2:
+        cls = norm(e.args[1]).split('.')[-1]
+        if cls == 'TestSuite':
+            return env['is_suite']
+        if 'item_classes' in env:
+            # the item is an instance of exactly the classes listed (a plain TestCase is not a ReferenceTestCase)
+            return cls in env['item_classes']
     raise AnalysisError('check-mode test not interpretable: %s' % t)
 
 
@@ -189,13 +204,15 @@ def checkmode(run, p):
                         recorded = True
         return added, recorded
     d = loop[0]
-    for chk, suite in itertools.product((False, True), (False, True)):
-        env = {'self.check': chk, 'is_suite': suite}
+    kinds = (('a suite', True, ()), ('a ReferenceTestCase', False, ('TestCase', 'ReferenceTestCase', 'object')),
+             ('a plain unittest.TestCase', False, ('TestCase', 'object')))
+    for chk, (what, suite, classes) in itertools.product((False, True), kinds):
+        env = {'self.check': chk, 'is_suite': suite, 'item_classes': classes}
         added, recorded = effects_of(body, env)
         want_added = suite or not chk
         ok = added == want_added and (recorded == (chk and not suite))
-        run.ob('C19-CHECKMODE', 'check=%s,suite=%s' % (chk, suite), ok,
-               'list mode %s, item is %s: added to the run=%s, class recorded=%s' % (chk, 'a suite' if suite else 'a test case', added, recorded), fn=f, node=d)
+        run.ob('C19-CHECKMODE', 'check=%s,item=%s' % (chk, what), ok,
+               'list mode %s, item is %s: added to the run=%s, class recorded=%s' % (chk, what, added, recorded), fn=f, node=d)
     rec = any(isinstance(s, ast.If) and 'TestSuite' in norm(s.test) and any(isinstance(c, ast.Call) and norm(c.func) == 'self._tagged_tests_only' for c in ast.walk(s))
               for s in body)
     run.ob('C19-CHECKMODE', 'recursion', rec, 'nested suites are filtered recursively', fn=f, nontrivial=False)
@@ -219,7 +236,7 @@ def checkmode(run, p):
             what = norm(v) if v is not None else 'nothing'
         run.ob('C19-CHECKMODE', 'loader-choice:tagged=%s,check=%s' % (tg, chk), ok,
                'tagged=%s, list-tagged=%s: tests are loaded by %s' % (tg, chk, what), fn=rt)
-    run.floor('C19-CHECKMODE', 9, 9)
+    run.floor('C19-CHECKMODE', 11, 11)
 
 
 def pytable(run, p):
